@@ -2,6 +2,7 @@
 package par
 
 import (
+	"encoding/json"
 	"fmt"
 	"os"
 	"os/exec"
@@ -11,6 +12,7 @@ import (
 	"strings"
 	"sync"
 	"sync/atomic"
+	"time"
 
 	"verif/lib/ev"
 )
@@ -121,5 +123,110 @@ func RunShards(r *ev.Report, n, parallel int, extraArgs ...string) {
 		if e != nil {
 			ev.Fatal("worker failed: %v", e)
 		}
+	}
+}
+
+// RunShardsCrashAware is RunShards for checks whose cases may crash or overflow the
+// stack of a worker: a worker writes the case it is about to run to <out>.cur; when a
+// worker dies the path of that file is returned (the caller turns it into a violation),
+// and the partial results of that worker are lost (reported as non-exhaustive).
+func RunShardsCrashAware(r *ev.Report, n, parallel int, dir string, extraArgs ...string) (crashed []string) {
+	self, err := os.Executable()
+	if err != nil {
+		ev.Fatal("os.Executable: %v", err)
+	}
+	if parallel <= 0 {
+		parallel = Workers()
+	}
+	sem := make(chan struct{}, parallel)
+	var wg sync.WaitGroup
+	var mu sync.Mutex
+	errs := make([]error, n)
+	for i := 0; i < n; i++ {
+		wg.Add(1)
+		go func(i int) {
+			defer wg.Done()
+			sem <- struct{}{}
+			defer func() { <-sem }()
+			out := filepath.Join(dir, fmt.Sprintf("s%d.json", i))
+			args := append([]string{"-tier", r.Tier, "-shard", fmt.Sprintf("%d/%d", i, n), "-out", out}, extraArgs...)
+			cmd := exec.Command(self, args...)
+			cmd.Env = append(os.Environ(), "GOMAXPROCS=2")
+			b, err := cmd.CombinedOutput()
+			if err != nil {
+				if _, serr := os.Stat(out + ".cur"); serr == nil {
+					mu.Lock()
+					crashed = append(crashed, out+".cur")
+					r.Exhaustive = false
+					tail := string(b)
+					if len(tail) > 400 {
+						tail = tail[:400]
+					}
+					r.Note("worker %d died: %v: %s", i, err, tail)
+					mu.Unlock()
+					return
+				}
+				errs[i] = fmt.Errorf("shard %d: %v\n%s", i, err, b)
+				return
+			}
+			errs[i] = r.MergeShard(out)
+		}(i)
+	}
+	wg.Wait()
+	for _, e := range errs {
+		if e != nil {
+			ev.Fatal("worker failed: %v", e)
+		}
+	}
+	return crashed
+}
+
+// ---------------------------------------------------------------- risky cases in workers
+
+var (
+	caseMu    sync.Mutex
+	caseFile  string
+	caseStart time.Time
+	caseOn    bool
+	dogOnce   sync.Once
+)
+
+// BeginCase records the case a worker is about to run in <out>.cur and arms a watchdog:
+// a case that makes the process exceed 50 000 goroutines or runs for more than the
+// horizon (default 60 s, thousands of times the normal cost) ends the worker with exit
+// status 3; the parent reports it as non-termination of exactly that case.
+func BeginCase(curFile string, desc any) {
+	b, _ := json.Marshal(desc)
+	os.WriteFile(curFile, b, 0o644)
+	caseMu.Lock()
+	caseFile, caseStart, caseOn = curFile, time.Now(), true
+	caseMu.Unlock()
+	dogOnce.Do(func() {
+		go func() {
+			horizon := 60 * time.Second
+			for {
+				time.Sleep(50 * time.Millisecond)
+				caseMu.Lock()
+				on, st := caseOn, caseStart
+				caseMu.Unlock()
+				if !on {
+					continue
+				}
+				if runtime.NumGoroutine() > 50000 || time.Since(st) > horizon {
+					fmt.Fprintf(os.Stderr, "watchdog: case does not terminate (goroutines=%d, elapsed=%s)\n", runtime.NumGoroutine(), time.Since(st))
+					os.Exit(3)
+				}
+			}
+		}()
+	})
+}
+
+func EndCase() {
+	caseMu.Lock()
+	caseOn = false
+	f := caseFile
+	caseMu.Unlock()
+	if f != "" {
+		os.Remove(f)
 	}
 }
